@@ -58,7 +58,6 @@ GridIdx(v, x)  == CHOOSE i \in 0..v.n - 1 : GridVal(v, i) = x
 
 \* all index assignments of a sequence of variables
 MaxN(vs) == Max({vs[i].n : i \in DOMAIN vs} \cup {1})
-IdxSet(vs) == {c \in [NamesOf(vs) -> 0..MaxN(vs) - 1] : \A i \in DOMAIN vs : c[vs[i].name] < vs[i].n}
 
 \* row-major enumeration of index tuples of given sizes (numpy order "C" /
 \* meshgrid(indexing="ij").ravel())
@@ -72,6 +71,9 @@ ProdOf(vs) ==
   LET tuples == Prod([i \in DOMAIN vs |-> vs[i].n])
   IN [k \in DOMAIN tuples |-> [nm \in NamesOf(vs) |->
          tuples[k][CHOOSE i \in DOMAIN vs : vs[i].name = nm]]]
+\* all index assignments name -> 0..n-1 (as a set; built from the product, so that models with many small variables stay cheap:
+\* filtering the function space [names -> 0..max-1] is exponential in the number of variables)
+IdxSet(vs) == LET all == ProdOf(vs) IN {all[k] : k \in DOMAIN all}
 
 (* ------------------------------------------------------------ expressions *)
 RECURSIVE Dig(_, _)
